@@ -42,7 +42,7 @@ def project(outs, tags, probe_every=1):
     """keep only records whose tag is in `tags`"""
     if outs == [[-999]]:
         return outs
-    return [r for r in outs if r and r[0] in tags]
+    return [r for r in outs if r and (r[0] in tags or r[0] == 16)]
 
 
 def base(rng, small=True):
